@@ -491,7 +491,7 @@ def run(R):
     extra_ok = True
     if os.environ.get("PXV_C20_E2E", "1") != "0" and not R.replay:
         # accepted guards, nested ones included, through the real compiler and the generated server (family gen_routes)
-        import domains_e2e
+        import checks.domains_e2e as domains_e2e
         extra_ok = domains_e2e.domain_stage(R, "C20")
     pxvlib.differential(
         R, modules=["Pxv.Thm.C20"], model="domain", pkg="c20", gen=gen, oracle=oracle, nontrivial=nontrivial,
